@@ -1,3 +1,4 @@
+use crate::engine::core::SegmentIndex;
 use std::fs;
 use std::path::PathBuf;
 use std::sync::{Arc, RwLock};
@@ -42,6 +43,45 @@ impl SegmentIdLoader {
 
         ids.sort();
         info!(target: "segment_id_loader::load", count = ids.len(), "Loaded segment IDs");
+        ids
+    }
+
+    /// Loads the IDs of the segments published in `segments.idx`, sorted ascending.
+    ///
+    /// A numeric directory the index does not name is the left-over of a flush or
+    /// compaction interrupted before (or retired after) its index update. It is removed:
+    /// it must not be queried, and its id will be allocated again. Falls back to the plain
+    /// directory scan when the index is missing or unreadable.
+    pub fn load_published(&self) -> Vec<String> {
+        let on_disk = self.load();
+        let Some(published) = SegmentIndex::published_labels(&self.segment_base_dir) else {
+            if on_disk.is_empty() {
+                if let Err(e) = SegmentIndex::init_empty(&self.segment_base_dir) {
+                    warn!(target: "segment_id_loader::load_published", error = ?e, "Failed to initialize empty segment index");
+                }
+            }
+            return on_disk;
+        };
+
+        let mut ids = Vec::with_capacity(on_disk.len());
+        for id in on_disk {
+            if published.contains(&id) {
+                ids.push(id);
+                continue;
+            }
+            let path = self.segment_base_dir.join(&id);
+            if !path.is_dir() {
+                continue;
+            }
+            warn!(
+                target: "segment_id_loader::load_published",
+                ?path,
+                "Removing segment directory not named in segments.idx (interrupted flush/compaction)"
+            );
+            if let Err(e) = fs::remove_dir_all(&path) {
+                warn!(target: "segment_id_loader::load_published", ?path, error = ?e, "Failed to remove unpublished segment directory");
+            }
+        }
         ids
     }
 
